@@ -342,8 +342,11 @@ func (w *world) hardenSpecs(add func(spec), all, bin, text []shape) {
 					if ch == 1 && len(sh.data) > 2000 || ch == 4096 && len(sh.data) < 4096 {
 						continue
 					}
+					if b.comp != packet.CompressionNone && (ch == 100 || ch == 1) {
+						continue // a deflate state costs ~1 MB per case
+					}
 					for ri, rd := range []int{1, 22, 23, 4096, -1} {
-						if len(sh.data) > 50000 && rd == 1 {
+						if len(sh.data) > 50000 && (rd == 1 || rd == 22 || ch == 100) {
 							continue
 						}
 						s := b
@@ -361,7 +364,7 @@ func (w *world) hardenSpecs(add func(spec), all, bin, text []shape) {
 		bases := []spec{
 			{op: "sign", signer: "p256", hash: crypto.SHA256},
 			{op: "symmetric", cipher: packet.CipherAES128, comp: packet.CompressionNone, hash: crypto.SHA256, s2kCount: 1024},
-			{op: "symmetric", cipher: packet.CipherCAST5, comp: packet.CompressionZLIB, hash: crypto.SHA256, s2kCount: 1024},
+			{op: "symmetric", cipher: packet.CipherCAST5, comp: packet.CompressionNone, hash: crypto.SHA256, s2kCount: 1024},
 			{op: "encrypt", to: []string{"rsa"}, cipher: packet.CipherAES256, hash: crypto.SHA256},
 			{op: "encrypt", to: []string{"dsa"}, signer: "p384", cipher: packet.CipherAES128, hash: crypto.SHA384},
 		}
@@ -380,6 +383,9 @@ func (w *world) hardenSpecs(add func(spec), all, bin, text []shape) {
 			for _, hi := range hintSets {
 				for n := 0; n <= top; n++ {
 					s := b
+					if bi == 2 && (n >= 170 && n <= 200 || n >= 490 && n <= 520) {
+						s.comp = packet.CompressionZLIB // a deflate state costs ~1 MB: compressed only around the stream boundaries
+					}
 					s.msg, s.msgName, s.chunk, s.read, s.hints = dense[:n], fmt.Sprintf("len%d", n), chunks[(n+bi)%4], reads[(n/4+bi)%5], hi
 					near := func(m int) bool { return n >= m-7 && n <= m+1 }
 					s.x.noGPG = !(bi <= 1 && hi == 0 && (near(192) || near(512)))
